@@ -127,8 +127,9 @@ pub fn stages(id: &str) -> Vec<Stage> {
             st(C11 { params: Params::wide(), stage: "wide" }, 400, 8_000, Release),
         ],
         "C12" => vec![
-            st(C12 { params: Params::conflict_heavy().with_soft(2, 100), stage: "main", max_indices: 48 }, 1_500, 0, Release),
-            st(C12 { params: Params::conflict_heavy().with_soft(2, 100), stage: "all-indices", max_indices: 0 }, 0, 40_000, Release),
+            st(C12 { params: Params::conflict_heavy().with_soft(2, 100), stage: "main", max_indices: 48, conflict_free: false }, 1_500, 0, Release),
+            st(C12 { params: Params::conflict_heavy().with_soft(2, 100), stage: "all-indices", max_indices: 0, conflict_free: false }, 0, 40_000, Release),
+            st(C12 { params: Params::wide_root(), stage: "wide-root", max_indices: 64, conflict_free: true }, 3, 60, Release),
         ],
         "C13" => vec![
             st(C13 { params: Params::conflict_heavy().with_soft(2, 100), stage: "main" }, 10_000, 400_000, Release),
@@ -139,9 +140,10 @@ pub fn stages(id: &str) -> Vec<Stage> {
             st(C14 { params: Params::default(), stage: "conflict-free", conflict_free: true }, 15_000, 600_000, Release),
         ],
         "C15" => vec![
-            st_x(C15 { stage: "small", max_n: 33, all_pairs_upto: 33, sample_pairs: 0, extended: false }, 300, 128, Release),
-            st_x(C15 { stage: "large", max_n: 130, all_pairs_upto: 64, sample_pairs: 600, extended: false }, 40, 128, Release),
-            st_x(C15 { stage: "extended", max_n: 20, all_pairs_upto: 20, sample_pairs: 0, extended: true }, 1_000, 128, Release),
+            st_x(C15 { stage: "small", max_n: 33, all_pairs_upto: 33, sample_pairs: 0, extended: false, overlap: false }, 300, 128, Release),
+            st_x(C15 { stage: "large", max_n: 130, all_pairs_upto: 64, sample_pairs: 600, extended: false, overlap: false }, 40, 128, Release),
+            st_x(C15 { stage: "extended", max_n: 20, all_pairs_upto: 20, sample_pairs: 0, extended: true, overlap: false }, 1_000, 128, Release),
+            st_x(C15 { stage: "overlap", max_n: 20, all_pairs_upto: 20, sample_pairs: 0, extended: true, overlap: true }, 600, 128, Release),
         ],
         "C16" => vec![
             st(C16 { params: Params::default(), stage: "main" }, 8_000, 300_000, Release),
@@ -156,13 +158,16 @@ pub fn stages(id: &str) -> Vec<Stage> {
             st(C17 { id: "C17", stage: "rust-containers", kind: "rust", max_tape: 260 }, 2_000, 40_000, Release),
         ],
         "C18" => vec![
-            st(C18 { stage: "main", max_ops: 250, fat: false }, 4_000, 150_000, Release),
-            st(C18 { stage: "fat", max_ops: 250, fat: true }, 3_000, 100_000, Release),
+            st(C18 { stage: "main", max_ops: 250, fat: false, bulk: 0 }, 4_000, 150_000, Release),
+            st(C18 { stage: "fat", max_ops: 250, fat: true, bulk: 0 }, 3_000, 100_000, Release),
+            st(C18 { stage: "bulk", max_ops: 120, fat: false, bulk: 12_000 }, 150, 3_000, Isolated),
+            st(C18 { stage: "bulk-fat", max_ops: 120, fat: true, bulk: 6_000 }, 50, 1_000, Isolated),
             st(C17 { id: "C18", stage: "asan", kind: "c18", max_tape: 1500 }, 0, 10_000, Release),
         ],
         "C19" => vec![
-            st(C19 { stage: "main", max_ops: 60 }, 40_000, 2_000_000, Release),
-            st(C19 { stage: "debug", max_ops: 60 }, 10_000, 300_000, Debug),
+            st(C19 { stage: "main", max_ops: 60, long: false }, 40_000, 2_000_000, Release),
+            st(C19 { stage: "long", max_ops: 1500, long: true }, 400, 8_000, Release),
+            st(C19 { stage: "debug", max_ops: 60, long: false }, 10_000, 300_000, Debug),
             st(C17 { id: "C19", stage: "asan", kind: "c19", max_tape: 700 }, 0, 40_000, Release),
         ],
         _ => vec![],
